@@ -510,6 +510,10 @@ func dequeNonEmptyProv(c *Ctx, fn *ssa.Function, b *ssa.BasicBlock, idx int, rec
 		if e := symOf(resolveVal(v), provEnv{}); e.op == "iv" && e.nonNegShape() {
 			return true
 		}
+		// a counter kept in a field that is only ever set to a non-negative constant or incremented (iter.n)
+		if fieldOnlyCountsUp(c, v) {
+			return true
+		}
 		for _, g := range gs {
 			if cf, ok := g.asCmp(); ok {
 				x, y, op := cf.x, cf.y, cf.op
@@ -1029,4 +1033,59 @@ func dequeLenPositive(fn *ssa.Function, b *ssa.BasicBlock, recv ssa.Value) bool 
 		}
 	}
 	return false
+}
+
+
+// fieldOnlyCountsUp: v is a load of an integer field of a struct type of the module, and every store to that field anywhere in
+// its package is a non-negative constant or the field's own value plus a positive constant.
+func fieldOnlyCountsUp(c *Ctx, v ssa.Value) bool {
+	ld, ok := resolveVal(v).(*ssa.UnOp)
+	if !ok || ld.Op != token.MUL || !isIntType(ld.Type()) {
+		return false
+	}
+	fa, ok := ld.X.(*ssa.FieldAddr)
+	if !ok || ld.Parent() == nil {
+		return false
+	}
+	nt, ok := derefType(fa.X.Type()).(*types.Named)
+	if !ok {
+		return false
+	}
+	fld := fieldName(fa.X.Type(), fa.Field)
+	n := 0
+	good := true
+	for _, f := range c.Funcs {
+		if rootFn(f).Pkg != rootFn(ld.Parent()).Pkg {
+			continue
+		}
+		instrs(f, func(_ *ssa.BasicBlock, _ int, in ssa.Instruction) {
+			st, ok := in.(*ssa.Store)
+			if !ok {
+				return
+			}
+			fa2, ok := st.Addr.(*ssa.FieldAddr)
+			if !ok || fieldName(fa2.X.Type(), fa2.Field) != fld {
+				return
+			}
+			nt2, ok := derefType(fa2.X.Type()).(*types.Named)
+			if !ok || nt2.Origin() != nt.Origin() {
+				return
+			}
+			n++
+			if k, isK := st.Val.(*ssa.Const); isK && k.Value != nil && k.Int64() >= 0 {
+				return
+			}
+			if add, isB := resolveVal(st.Val).(*ssa.BinOp); isB && add.Op == token.ADD {
+				if k, isK := add.Y.(*ssa.Const); isK && k.Value != nil && k.Int64() > 0 {
+					if l2, isL := resolveVal(add.X).(*ssa.UnOp); isL && l2.Op == token.MUL {
+						if fa3, isF := l2.X.(*ssa.FieldAddr); isF && fieldName(fa3.X.Type(), fa3.Field) == fld {
+							return
+						}
+					}
+				}
+			}
+			good = false
+		})
+	}
+	return good && n > 0
 }
